@@ -16,7 +16,7 @@ mod oracle;
 pub const OP_NAMES: &[&str] = &[
     "NewClient", "TickClient", "TickServer", "Deliver", "Drop", "DropAll", "DeliverAll", "GenPayload", "ClientDisconnect", "ServerDisconnect",
     "SetMaxClients", "Junk", "Mutate", "Replay", "ForgeRequest", "ForgeResponse", "ForgeSession", "TamperEnum", "RestartServer", "Teleport",
-    "TokenSurgery", "CrashClient", "GenBurst", "CrossResponse",
+    "TokenSurgery", "CrashClient", "GenBurst", "CrossResponse", "StaleHandshake", "FloodThenSteal",
 ];
 pub const K_NEWCLIENT: u8 = 0;
 pub const K_TICKCLIENT: u8 = 1;
@@ -42,6 +42,8 @@ pub const K_TOKENSURGERY: u8 = 20;
 pub const K_CRASH: u8 = 21;
 pub const K_GENBURST: u8 = 22;
 pub const K_CROSSRESP: u8 = 23;
+pub const K_STALEHS: u8 = 24;
+pub const K_FLOODSTEAL: u8 = 25;
 
 pub const T_REQUEST: u8 = 0;
 pub const T_DENIED: u8 = 1;
@@ -173,6 +175,7 @@ pub struct WorldB {
     pub sess_counter: u32,
     pub nonce_table: HashMap<(usize, u8, u32, u64), u64>, // (tid, dir, scope, seq) -> hash of datagram
     pub adv_addr: SocketAddr,
+    pub flooded: bool,
     pub payload_counter: u64,
     pub ev_connected: BTreeMap<u64, (SocketAddr, bool)>, // id -> (addr, currently connected per event stream)
     pub challenges_seen: Vec<(u64, Vec<u8>, u64, u32)>, // (token_sequence, token_data, for client id, incarnation)
@@ -276,6 +279,7 @@ impl WorldB {
             sess_counter: 0,
             nonce_table: HashMap::new(),
             adv_addr: addr_v4(66, 66, 66, 66, 6666),
+            flooded: false,
             payload_counter: 0,
             ev_connected: BTreeMap::new(),
             challenges_seen: Vec::new(),
